@@ -169,8 +169,11 @@ func LookupXpathFunction(
 	customFnsAllowed bool,
 	userFnCheckFn UserCustomFunctionCheckerFn,
 ) (*Symbol, bool) {
+	verifLookupEnter(name)
 	mu.Lock()         // Lock before accessing shared data
 	defer mu.Unlock() // Ensure the mutex is unlocked when the function exits
+	verifLookup(name)
+	defer verifLookupExit(name) // runs before the deferred Unlock
 
 	if !pluginsLoaded {
 		RegisterCustomFunctions(openPlugins())
